@@ -203,6 +203,8 @@ def generate(notes: list[str]) -> list[str]:
     if branch is None:
         miss("ConfigManager.delete_environment: branch resetting the current environment")
     out.append(f"def deleteResetsToDefault : Bool := {_b(resets_default)}")
-    out.append(f"def deleteClearsProfile : Bool := {_b(branch is not None and _calls_clear_profile(branch))}")
+    # anywhere in the function: *when* it clears (only if the deleted environment was current) is the model's
+    # claim and is checked by the correspondence runs, so an equivalent restructuring does not break the extraction
+    out.append(f"def deleteClearsProfile : Bool := {_b(branch is not None and de is not None and _calls_clear_profile([de]))}")
     out.append("end Gen.CliConfig")
     return out
